@@ -47,7 +47,15 @@ def targets():
 def contexts(tt, v):
     """(label, type term, value) for each embedding context"""
     holder = {'name': terms.fresh_name('H'), 'fields': [{'name': 'f', 'ty': tt}], 'opts': {}, 'hook': None}
-    return [
+    key_ctx = []
+    try:
+        hash(v)
+        if tt[0] in ('scalar', 'none', 'literal', 'enum') and tt != ('scalar', 'bytearray'):      # (a bytearray cannot be a key)
+            # the key position of a typed mapping (successive keys that == identifies go through one memoised converter)
+            key_ctx = [('mapping key', ('dict', tt, ('scalar', 'int')), {v: 1}), ('mapping key in a list', ('seq', 'list', ('dict', tt, ('scalar', 'int'))), [{v: 1}])]
+    except TypeError:
+        pass
+    return key_ctx + [
         ('top', tt, v),
         ('list element', ('seq', 'list', tt), [v]),
         ('mapping value', ('dict', ('scalar', 'str'), tt), {'k': v}),
@@ -113,7 +121,7 @@ def run(ctx, out):
     out.evaluations += families.noninit_tuple_family(out, PROP, _random.Random(ctx['seed']))
     out.rule = ('EXHAUSTIVE: 23 targets (7 scalars, None, list, variadic tuple, fixed tuple, set, mapping, struct dataclass, tuple-layout '
                 'dataclass, int/str/bool literals, int/str/bool enums) x 11 value kinds (22 representatives, including the numbers that == '
-                'identifies with literal and enum members) x 8 embedding contexts (top, list element, mapping value, '
+                'identifies with literal and enum members) x 10 embedding contexts (mapping key, mapping key inside a list, top, list element, mapping value, '
                 'tuple slot, union member, Optional, dataclass field, struct field); every cell compared with the matrix written from '
                 'the property text and, through corr_convert, with the Coq model. The random stream of the other checks is not used.')
     out.exhaustive = True
